@@ -176,9 +176,11 @@ def _vectors(ctx):
     if len(allv) < 500:
         ctx.inconclusive("only %d scenario vectors exported" % len(allv))
     rng = random.Random(ctx.seed)
-    k = 500 if ctx.quick else 4000
+    k = 500 if ctx.quick else 100000        # thorough: every scenario
     vecs = allv if len(allv) <= k else rng.sample(allv, k)
     ctx.log("%d scenarios exported by TLC, %d run" % (len(allv), len(vecs)))
+    ctx.cov["scenarios_total"] = len(allv)
+    ctx.cov["scenarios_all_run"] = len(vecs) == len(allv)
     good, tainted, bad = _run_and_validate(ctx, vecs, "a")
     ctx.evals(len(vecs))
     if len(tainted) > len(vecs) // 4:
